@@ -99,10 +99,36 @@ def run(ctx, n_quick=40, n_thorough=500):
             check_census(ctx, db, b.path, case)
         # versions of WAL histories: census per version against the model (dbstat only sees the newest state)
         r = ctx.rng
-        for i in range(12 if ctx.thorough() else 4):
+        kinds = ["freelist_drain", "grow_shrink", None, "ddl", "freelist_drain", "rootmove", None, "spill"]
+        for i in range(24 if ctx.thorough() else 6):
             cfg = F.random_cfg(r, page_sizes=[512, 1024, 4096], small=True)
-            h = H.make_history(sc.path(f"h{i}"), cfg, r)
-            C.compare_history_dump(ctx, h.db, h.wal, "vh.dump")
+            kind = kinds[i % len(kinds)]
+            h = H.make_history(sc.path(f"h{i}"), cfg, r, kind=kind, n_commits=(r.randint(3, 6) if kind == "freelist_drain" else None))
+            n0 = len(ctx.oracle_failures)
+            case = {"kind": h.kind, "cfg": h.cfg, "events": h.events, "seed": ctx.seed}
+            impl, vh, exc = C.compare_history_dump(ctx, h.db, h.wal, "vh.dump")
+            ctx.branch(f"history:{h.kind}")
+            if vh is None:
+                ctx.oracle_fail("history-rejected", f"a WAL history written by SQLite is rejected: {impl}", case, impl, "accepted")
+            elif len(vh.versions) == len(h.snapshots):
+                # per version: SQLite's page_count / freelist_count recorded right after that commit
+                for k, snap in enumerate(h.snapshots):
+                    vcase = dict(case, version=k)
+                    try:
+                        pages = vh.versions[k].pages
+                    except Exception as e:  # noqa
+                        ctx.oracle_fail("census-rejected", f"page census of a version fails: {type(e).__name__}", vcase, str(e)[:300], "ok")
+                        continue
+                    pc, fl = snap["pragmas"]["page_count"], snap["pragmas"]["freelist_count"]
+                    ctx.mark(("version-census", i, k), nontrivial=fl > 0)
+                    if sorted(pages) != list(range(1, pc + 1)):
+                        ctx.oracle_fail("census-pages", "census of a version does not cover pages 1..page_count exactly once", vcase, len(pages), pc)
+                    nfree = sum(1 for p in pages.values() if str(p.page_type).startswith("FREELIST"))
+                    if nfree != fl:
+                        ctx.oracle_fail("freelist-count", "freelist pages of a version differ from PRAGMA freelist_count after that commit", vcase, nfree, fl)
+                    if fl == 0 and k and h.snapshots[k - 1]["pragmas"]["freelist_count"]:
+                        ctx.branch("history:freelist-drained-to-zero")
+            C.keep_failing_files(ctx, n0, h.db, h.wal)
     finally:
         sc.close()
 
